@@ -45,4 +45,55 @@ theorem step_tokenIf_miss (env : Env) (types : List String) (w : World) (t : Tok
   · simp [World.toTok, hty']
   · simp [World.toTok, hv]
 
+/-! ### the same for an arbitrary token predicate (`token_if_val`, `token_if_in_set`, `token_if_not`) -/
+
+theorem step_tokenIfP_hit (env : Env) (p : CTok → Bool) (w : World) (t : Tok) (b1 : Buf)
+    (htok : tokenEofOk env.cfg w.buf = .ok (some t, b1))
+    (hp : ∀ c : CTok, c.type = t.type → c.value = t.value → p c = true) :
+    ∃ (w1 : World) (c : CTok), interp env (P.tokenIfP p) w = (w1, .ok (some c)) ∧ w1.buf = b1 ∧ SameParse w w1 ∧
+      c.type = t.type ∧ c.value = t.value := by
+  obtain ⟨hs, hb, hty', hv⟩ := handOut_same ({ w with buf := b1 } : World) t
+  refine ⟨_, _, ?_, hb, (SameParse.setBuf w b1).trans hs, hty', hv⟩
+  simp only [interp_tokenIfP, htok, hp _ hty' hv, ↓reduceIte]
+
+theorem step_tokenIfP_miss (env : Env) (p : CTok → Bool) (w : World) (t : Tok) (b1 : Buf)
+    (htok : tokenEofOk env.cfg w.buf = .ok (some t, b1))
+    (hp : ∀ c : CTok, c.type = t.type → c.value = t.value → p c = false) :
+    ∃ (w1 : World) (t' : Tok), interp env (P.tokenIfP p) w = (w1, .ok none) ∧ SameParse w w1 ∧
+      tokenEofOk env.cfg w1.buf = .ok (some t', b1) ∧ t'.type = t.type ∧ t'.value = t.value := by
+  obtain ⟨hs, hb, hty', hv⟩ := handOut_same ({ w with buf := b1 } : World) t
+  have hpf := hp _ hty' hv
+  generalize hwB : (({ w with buf := b1 } : World).handOut t).2 = wB at *
+  generalize hcB : (({ w with buf := b1 } : World).handOut t).1 = cB at *
+  have hnd : isDiscard (wB.toTok cB).type = false := by
+    have := tokenEofOk_not_discard htok
+    simpa [World.toTok, hty'] using this
+  refine ⟨{ wB with buf := Cxx.returnToken (wB.toTok cB) b1 }, wB.toTok cB, ?_, ?_, ?_, ?_, ?_⟩
+  · simp only [interp_tokenIfP, htok, hwB, hcB, hpf, Bool.false_eq_true, ↓reduceIte, List.map_cons, List.map_nil,
+      Cxx.returnTokens, List.singleton_append, hb]
+    rfl
+  · exact ((SameParse.setBuf w b1).trans hs).trans (SameParse.setBuf wB _)
+  · exact tokenEofOk_returnToken env.cfg _ _ hnd
+  · simp [World.toTok, hty']
+  · simp [World.toTok, hv]
+
+/-- `self.lex.token()` on a token -/
+theorem step_token (env : Env) (w : World) (t : Tok) (b1 : Buf)
+    (htok : tokenEofOk env.cfg w.buf = .ok (some t, b1)) :
+    ∃ (w1 : World) (c : CTok), interp env P.token w = (w1, .ok c) ∧ w1.buf = b1 ∧ SameParse w w1 ∧
+      c.type = t.type ∧ c.value = t.value := by
+  obtain ⟨hs, hb, hty', hv⟩ := handOut_same ({ w with buf := b1 } : World) t
+  refine ⟨_, _, ?_, hb, (SameParse.setBuf w b1).trans hs, hty', hv⟩
+  simp only [interp_token, htok]
+
+/-- `self.lex.return_token(c)`: an equal token is the next one again -/
+theorem step_returnToken (env : Env) (w : World) (c : CTok) (hnd : isDiscard c.type = false) :
+    ∃ (w1 : World) (t' : Tok), interp env (P.returnToken c) w = (w1, .ok ()) ∧ SameParse w w1 ∧
+      tokenEofOk env.cfg w1.buf = .ok (some t', w.buf) ∧ t'.type = c.type ∧ t'.value = c.value := by
+  refine ⟨{ w with buf := Cxx.returnToken (w.toTok c) w.buf }, w.toTok c, ?_, SameParse.setBuf w _, ?_, rfl, rfl⟩
+  · unfold P.returnToken
+    simp only [interp, List.map_cons, List.map_nil, Cxx.returnTokens, List.singleton_append]
+    rfl
+  · exact tokenEofOk_returnToken env.cfg _ _ (by simpa [World.toTok] using hnd)
+
 end Cxx
